@@ -56,9 +56,14 @@ namespace {
   }
 
   bool wanted(const char *k) { return k[0] == 'a' && k[1] == 'c' ? true : (k[0] == 'r' || k[0] == 'u'); } // acq acc rel reg use? use! use=
+  /// scope-machine events (ns ps nst pst fc+ fc- sp setl*): recorded as "stk" only while this thread asks for them (they are far too many otherwise)
+  thread_local bool tl_stack_events = false;
+  bool stack_kind(const char *k) { return k[0] == 'n' || k[0] == 'p' || k[0] == 'f' || (k[0] == 's' && k[1] == 'p'); }
 
   void on_event(const char *k, const void *obj, std::string_view n, long a, long, long, std::string_view) {
-    if (!g_on.load(std::memory_order_relaxed) || !wanted(k)) { return; }
+    if (!g_on.load(std::memory_order_relaxed)) { return; }
+    if (tl_stack_events && stack_kind(k)) { k = "stk"; a = 0; n = std::string_view(); }
+    else if (!wanted(k)) { return; }
     const int t = tid();
     if (t >= k_max_threads) { return; }
     g_bufs[t].push_back(Ev{g_seq.fetch_add(1, std::memory_order_relaxed) + 1, k, t, intern(obj), a, std::string(n)});
@@ -119,8 +124,13 @@ namespace {
     std::vector<std::pair<std::string, int>> mine;
     for (int i = 0; i < nops; ++i) {
       const int tag = t * 1000 + i;
-      switch (tl_rng() % 10) {
+      switch (tl_rng() % 11) {
         case 0: expect_int("shared_fn(" + std::to_string(tag) + ")", tag * 2, "shared call"); break;
+        case 10: // a method of a class the MAIN thread defined: its frame, locals and guard belong to the calling thread
+          tl_stack_events = true;
+          expect_int("shared_obj.echo(" + std::to_string(tag) + ")", tag, "shared method");
+          tl_stack_events = false;
+          break;
         case 1: { // define a function, call it, publish it
           const std::string name = "f_" + std::to_string(t) + "_" + std::to_string(i);
           expect_int("def " + name + "() { " + std::to_string(tag) + " }; " + name + "()", tag, "define+call");
@@ -211,6 +221,7 @@ int main(int argc, char **argv) {
   auto chai = make_engine(true);
   chai->add(fun([]() { ++g_use_evals; }), "use_file_evaluated");
   chai->eval("def shared_fn(x) { x * 2 }");
+  chai->eval("class SharedK { var v; def SharedK() { this.v = 0 }; def echo(x) : x >= 0 { var loc = x; var loc2 = loc + 1; { var loc = loc2 - 1; loc } } }; global shared_obj = SharedK()");
   chaiscript::verif::hooks().event = &on_event;
   chaiscript::verif::hooks().sched_point = &on_sched;
   tid(); // main thread is 0
